@@ -137,6 +137,31 @@ pub(crate) async fn git_cmd_rev_parse(
     }
 }
 
+// Parse the output of a git command run with -z: one verbatim path per NUL-terminated record.
+async fn read_nul_terminated_names<R>(stdout: R) -> Result<Vec<Change>, MonorailError>
+where
+    R: tokio::io::AsyncRead + Unpin,
+{
+    let mut reader = tokio::io::BufReader::new(stdout);
+    let mut out = vec![];
+    let mut buf = Vec::new();
+    loop {
+        buf.clear();
+        if reader.read_until(0, &mut buf).await? == 0 {
+            break;
+        }
+        if buf.last() == Some(&0) {
+            buf.pop();
+        }
+        if !buf.is_empty() {
+            out.push(Change {
+                name: String::from_utf8_lossy(&buf).into_owned(),
+            });
+        }
+    }
+    Ok(out)
+}
+
 pub(crate) async fn git_cmd_other_changes(
     git_path: &str,
     work_path: &path::Path,
@@ -144,16 +169,12 @@ pub(crate) async fn git_cmd_other_changes(
     let mut child = get_git_cmd_child(
         git_path,
         work_path,
-        &["ls-files", "--others", "--exclude-standard"],
+        &["ls-files", "--others", "--exclude-standard", "-z"],
     )
     .await?;
     let mut out = vec![];
     if let Some(stdout) = child.stdout.take() {
-        let reader = tokio::io::BufReader::new(stdout);
-        let mut lines = reader.lines();
-        while let Some(line) = lines.next_line().await? {
-            out.push(Change { name: line });
-        }
+        out = read_nul_terminated_names(stdout).await?;
     }
     let mut stderr_string = String::new();
     if let Some(mut stderr) = child.stderr.take() {
@@ -181,7 +202,9 @@ pub(crate) async fn git_cmd_diff_changes(
     begin: Option<&str>,
     end: Option<&str>,
 ) -> Result<Vec<Change>, MonorailError> {
-    let mut args = vec!["diff", "--name-only", "--find-renames"];
+    // --no-renames: a moved file is reported as both its old and its new path.
+    // -z: names are NUL-terminated and never quoted or escaped by git.
+    let mut args = vec!["diff", "--name-only", "--no-renames", "-z"];
     if let Some(begin) = begin {
         args.push(begin);
     }
@@ -191,11 +214,7 @@ pub(crate) async fn git_cmd_diff_changes(
     let mut child = get_git_cmd_child(git_path, work_path, &args).await?;
     let mut out = vec![];
     if let Some(stdout) = child.stdout.take() {
-        let reader = tokio::io::BufReader::new(stdout);
-        let mut lines = reader.lines();
-        while let Some(line) = lines.next_line().await? {
-            out.push(Change { name: line });
-        }
+        out = read_nul_terminated_names(stdout).await?;
     }
     let mut stderr_string = String::new();
     if let Some(mut stderr) = child.stderr.take() {
